@@ -1011,6 +1011,10 @@ def observers(case, calls, flat, stats):
                 if not nets and c["out"]:
                     out.append({"prop": "C17", "rule": "net_notice", "msg": "call %d %r was accepted but observer %d received no net-updated notice" % (ci, op, o)})
         for ev in c["out"]:
+            if ev[0] == "UPD" and len(ev) > 3 and ev[2] == "NETID":
+                out.append({"prop": "C17", "rule": "net_notice_id", "msg": "call %d: the net-updated notice of observer %d carries %s" % (ci, ev[1], ev[3])})
+                break
+        for ev in c["out"]:
             if ev[0] in ("LOG", "NET", "UPD") and ev[1] not in attached:
                 out.append({"prop": "C17", "rule": "detached_receives", "msg": "call %d: observer %d is not attached but received %r" % (ci, ev[1], ev[:4])})
                 break
